@@ -7,8 +7,13 @@ import z3
 
 from .core import *  # noqa: F401,F403
 from .vals import *  # noqa: F401,F403
+from .vals import SEQ, MapSeqP, SetP, VMapSlot
 from .ev_expr import UNBOUND, BoolishV, StrListP
 from .schema import SCHEMA
+
+ALT_LEN = z3.Function("AltLen", z3.IntSort(), z3.IntSort())
+ALT_ELEM = z3.Function("AltElem", z3.IntSort(), z3.IntSort(), z3.IntSort())
+ALT_IDX = z3.Function("AltIdx", z3.IntSort(), z3.IntSort(), z3.IntSort())
 
 MUTATORS = {"append", "extend", "insert", "pop", "clear", "update", "setdefault", "sort", "remove", "add"}
 
@@ -81,6 +86,11 @@ class StmtMixin:
             n = self.new_ref(ast.unparse(st.target).replace(".", "_"))
             v = self.new_list(IntListP(z3.Array(n, z3.IntSort(), z3.IntSort()), z3.IntVal(0), "int" if ann == "list[int]" else "atom"), n)
             self.assign(st.target, v, fr, st)
+            return
+        if isinstance(st.value, ast.Dict) and not st.value.keys and ann.startswith("dict[str, list["):
+            ref = self.new_ref(ast.unparse(st.target).replace(".", "_"))
+            self.payload[ref] = MapSeqP(z3.K(z3.IntSort(), z3.BoolVal(False)), z3.K(z3.IntSort(), z3.Empty(SEQ)))
+            self.assign(st.target, VDict(ref), fr, st)
             return
         v = self.eval(st.value, fr)
         self.assign(st.target, v, fr, st)
@@ -161,6 +171,19 @@ class StmtMixin:
         return self.store_index_special(base, idx, v, node, fr)
 
     def store_index_special(self, base, idx, v, node, fr):
+        if isinstance(base, VDict) and isinstance(self.get_payload(base.ref), MapSeqP):
+            p = self.mut_payload(base.ref) if base.ref not in self.payload else self.payload[base.ref]
+            k = self.atom_term(idx)
+            if isinstance(v, VList) and isinstance(self.get_payload(v.ref), PyListP) and not self.get_payload(v.ref).items:
+                sv = z3.Empty(SEQ)
+            elif isinstance(v, VSeqZ):
+                sv = v.t
+            else:
+                raise Unsupported("store of a non-empty list into a dict of lists")
+            p.keys = z3.Store(p.keys, k, z3.BoolVal(True))
+            p.vals = z3.Store(p.vals, k, sv)
+            self.on_payload_write(base.ref, node, fr)
+            return
         if isinstance(base, VDict) and isinstance(self.get_payload(base.ref), IntMapP):
             p = self.mut_payload(base.ref) if base.ref not in self.payload else self.payload[base.ref]
             k = self.as_int(idx)
@@ -293,6 +316,8 @@ class StmtMixin:
             raise Unsupported(f"loop #{k} of {fr.qualname} has no invariant")
         ghost = f"_it{k}"
         mode, aux = self.iter_mode(it, fr)
+        if mode == "set":
+            return self.for_over_set(st, fr, k, lc, aux)
         fr.locals[ghost] = VInt(0)
 
         def cond():
@@ -307,6 +332,50 @@ class StmtMixin:
             fr.locals[ghost] = VInt(fr.locals[ghost].t + 1)
 
         broke = self.run_loop(st, fr, k, lc, cond, pre_body, step, ghost=ghost)
+        if st.orelse and not broke:
+            self.exec_block(st.orelse, fr)
+
+    def alt_axioms(self):
+        """Mem(l, c) <=> exists j < AltLen(l). AltElem(l, j) == c   (for every opaque list value l)"""
+        if ("altaxioms",) in self.unfolded:
+            return
+        self.unfolded.add(("altaxioms",))
+        from .ev_expr import MEM
+
+        l, c, j = z3.Int("q_l"), z3.Int("q_c"), z3.Int("q_j")
+        self.assume(z3.ForAll([l], ALT_LEN(l) >= 0, patterns=[ALT_LEN(l)]))
+        self.assume(z3.ForAll([l, j], z3.Implies(z3.And(0 <= j, j < ALT_LEN(l)), MEM(l, ALT_ELEM(l, j))), patterns=[ALT_ELEM(l, j)]))
+        self.assume(z3.ForAll([l, c], z3.Implies(MEM(l, c), z3.And(0 <= ALT_IDX(l, c), ALT_IDX(l, c) < ALT_LEN(l), ALT_ELEM(l, ALT_IDX(l, c)) == c)), patterns=[MEM(l, c)]))
+
+    def for_over_set(self, st, fr, k, lc, setv):
+        """`for x in <set>`: each element once, in an arbitrary order. Ghost set _done<k> = elements already visited;
+        an iteration picks any x with x in S and x not in _done; the loop ends when _done == S."""
+        dname = f"_done{k}"
+        ref = self.new_ref(dname)
+        self.payload[ref] = SetP(z3.K(z3.IntSort(), z3.BoolVal(False)))
+        fr.locals[dname] = VDict(ref)
+        pick = {}
+
+        def cond():
+            x = fresh(f"pick{k}")
+            pick["x"] = x
+            S_ = self.get_payload(setv.ref).mem
+            D_ = self.get_payload(fr.locals[dname].ref).mem
+            c = fresh("c")
+            more = z3.Exists([c], z3.And(z3.Select(S_, c), z3.Not(z3.Select(D_, c))))
+            # when there is more, x is such an element
+            self.assume(z3.Implies(more, z3.And(z3.Select(S_, x), z3.Not(z3.Select(D_, x)))))
+            return more
+
+        def pre_body():
+            self.assign(st.target, VAtom(pick["x"]), fr, st)
+
+        def step():
+            d = fr.locals[dname]
+            p = self.payload[d.ref]
+            p.mem = z3.Store(p.mem, pick["x"], z3.BoolVal(True))
+
+        broke = self.run_loop(st, fr, k, lc, cond, pre_body, step, ghost=None, extra_havoc=[dname])
         if st.orelse and not broke:
             self.exec_block(st.orelse, fr)
 
@@ -327,6 +396,13 @@ class StmtMixin:
         return self.iter_mode_special(it, fr)
 
     def iter_mode_special(self, it, fr):
+        if isinstance(it, VDict) and isinstance(self.get_payload(it.ref), SetP):
+            return "set", it
+        if isinstance(it, VAtom):
+            # an opaque immutable list value (Rule.alt): length and elements are uninterpreted, linked to Mem by
+            # Mem(l, c) <=> exists j < len(l). elem(l, j) == c
+            self.alt_axioms()
+            return "altlist", it
         if isinstance(it, VObj) and it.cls == "<opaque>":
             ln = z3.Int(f"len({it.ref})")
             self.assume_axiom(ln >= 0)
@@ -348,6 +424,8 @@ class StmtMixin:
             return z3.Length(aux.t)
         if mode == "opaque":
             return aux[1]
+        if mode == "altlist":
+            return ALT_LEN(aux.t)
         raise Unsupported(mode)
 
     def iter_item(self, mode, aux, i, st, fr):
@@ -374,6 +452,8 @@ class StmtMixin:
             return VAtom(aux.t[i])
         if mode == "opaque":
             return VObj(self.new_ref(aux[0].ref + "[i]"), "<opaque>")
+        if mode == "altlist":
+            return VAtom(ALT_ELEM(aux.t, i))
         raise Unsupported(mode)
 
     def havoc_targets(self, st, fr):
@@ -428,6 +508,9 @@ class StmtMixin:
         if isinstance(v, VList):
             self.havoc_payload(v.ref, name)
             return v
+        if isinstance(v, VDict) and isinstance(self.get_payload(v.ref), (SetP, MapSeqP, IntMapP)):
+            self.havoc_payload(v.ref, name)
+            return v
         if v is UNBOUND or v is None:
             return UNBOUND
         if isinstance(v, (VObj, VFunc, VTuple, VNone, VElem)) and name in getattr(self, "_for_targets", ()):
@@ -462,6 +545,12 @@ class StmtMixin:
         elif isinstance(p, IntMapP):
             n = self.new_ref(name)
             self.payload[ref] = IntMapP(z3.Array(n + "?in", z3.IntSort(), z3.BoolSort()), z3.Array(n, z3.IntSort(), z3.IntSort()))
+        elif isinstance(p, MapSeqP):
+            n = self.new_ref(name)
+            self.payload[ref] = MapSeqP(z3.Array(n + "?in", z3.IntSort(), z3.BoolSort()), z3.Array(n, z3.IntSort(), SEQ))
+        elif isinstance(p, SetP):
+            n = self.new_ref(name)
+            self.payload[ref] = SetP(z3.Array(n, z3.IntSort(), z3.BoolSort()))
         else:
             raise Unsupported(f"havoc of {type(p).__name__}")
 
@@ -474,6 +563,10 @@ class StmtMixin:
         if len(parts) == 1:
             if isinstance(v, VList):
                 self.havoc_payload(v.ref, root)
+            elif isinstance(v, VDict) and isinstance(self.get_payload(v.ref), (SetP, MapSeqP, IntMapP)):
+                self.havoc_payload(v.ref, root)
+            elif isinstance(v, VDict):
+                raise Unsupported(f"loop mutates the literal dict {root}")
             return
         for f in parts[1:-1]:
             if not isinstance(v, VObj):
@@ -499,13 +592,16 @@ class StmtMixin:
             else:
                 raise Unsupported(f"havoc of {path}")
 
+    def on_payload_write(self, ref, node, fr):
+        pass
+
     def havoc_object(self, obj, path):
         self.havoc_special(obj, path)
 
     def havoc_special(self, obj, path):
         raise Unsupported(f"havoc of object {path}")
 
-    def run_loop(self, st, fr, k, lc, cond, pre_body, step, ghost=None) -> bool:
+    def run_loop(self, st, fr, k, lc, cond, pre_body, step, ghost=None, extra_havoc=()) -> bool:
         """Cut the loop at its invariant. Returns True when the loop was left via break."""
         inv = lc.get("inv", [])
         dec = lc.get("dec")
@@ -531,6 +627,8 @@ class StmtMixin:
         self._for_targets = assigned_names([st.target]) if isinstance(st, ast.For) else set()
         if ghost:
             names.add(ghost)
+        for x in extra_havoc:
+            names.add(x)
         for n in sorted(names):
             cur = fr.locals.get(n, UNBOUND)
             if cur is UNBOUND and n in types:
@@ -568,6 +666,7 @@ class StmtMixin:
                 return True
             if step:
                 step()
+            self.cover_check(f"{site}/body-end", st)
             for label, expr in inv:
                 self.oblige("INV-pres", f"{site}/{label}", self.spec_bool(expr, fr, label), st)
             if dec:
